@@ -91,6 +91,12 @@ func genLargeOffset(t *rapid.T, label string, bound int) uint32 {
 }
 
 func genDecLargeHistory(t *rapid.T, x *decExec, faults bool) {
+	genDecLargeHistoryOpt(t, x, faults, false)
+}
+
+// hostile: a sixth of the blocks get one sequence with Offset 0 (and a match)
+// or an Offset beyond min(WindowSize, bytes available).
+func genDecLargeHistoryOpt(t *rapid.T, x *decExec, faults, hostile bool) {
 	nops := 4 + rapid.IntRange(0, 14).Draw(t, "nops")
 	total := 0
 	for i := 0; i < nops && !x.dead && total < 40<<20; i++ {
@@ -191,6 +197,21 @@ func genDecLargeHistory(t *rapid.T, x *decExec, faults bool) {
 				cur += ll + m
 				total += ll + m
 			}
+			if hostile && len(seqs) > 0 && rapid.IntRange(0, 5).Draw(t, "hostileSeq") == 0 {
+				i := rapid.IntRange(0, len(seqs)-1).Draw(t, "badAt")
+				before := have
+				for _, q := range seqs[:i] {
+					before += int(q.LitLen) + int(q.MatchLen)
+				}
+				if rapid.Bool().Draw(t, "badZero") {
+					seqs[i].Offset = 0
+					if seqs[i].MatchLen == 0 {
+						seqs[i].MatchLen = 3
+					}
+				} else {
+					seqs[i].Offset = uint32(minInt(cc.WindowSize, before+int(seqs[i].LitLen)) + rapid.SampledFrom([]int{1, 2, 1000, 1 << 20}).Draw(t, "badBy"))
+				}
+			}
 			tl := 0
 			if rapid.IntRange(0, 2).Draw(t, "trail") == 0 {
 				tl = genLargeLen(t, "tl", free)
@@ -260,7 +281,7 @@ func decLargeProp(t *testing.T, prop string, faults bool) {
 				}
 				beginCase(prop, "large-"+vehicle, func() any { return summarizeDecCase(x) })
 				defer endCase()
-				genDecLargeHistory(t, x, faults)
+				genDecLargeHistoryOpt(t, x, faults, prop == "C05")
 				x.finish()
 				endCase()
 				if msg, bad := x.first(prop); bad {
@@ -312,6 +333,7 @@ func summarizeDecCase(x *decExec) any {
 }
 
 func TestC04Large(t *testing.T) { decLargeProp(t, "C04", false) }
+func TestC05Large(t *testing.T) { decLargeProp(t, "C05", false) }
 func TestC06Large(t *testing.T) { decLargeProp(t, "C06", true) }
 func TestC07Large(t *testing.T) { decLargeProp(t, "C07", false) }
 func TestC17Large(t *testing.T) { decLargeProp(t, "C17", true) }
